@@ -16,8 +16,7 @@ from ..solver_model import solver_function
 from .C10 import check_bounds
 from .C16 import discover_accessors
 
-TECHNIQUE = ('static analysis: path pairing of append/remove in the ordering loop, same-sequence and bound=min checks by '
-             'reaching definitions, parameter flow of the cell format')
+TECHNIQUE = ('static analysis: path pairing of append/remove under membership facts (or the compound sort key) in the ordering helper, same-sequence and bound=min checks over iteration sites (for statements and comprehensions) with temporaries resolved, parameter flow of the cell format, pass-through check of wrappers')
 EXPLANATION = (
     'The ordering helper is shown to return a permutation (append and remove of the same name are paired on every path, '
     'under the membership test, remainder sorted, both parts concatenated); the renderer iterates one and the same sequence '
